@@ -366,7 +366,14 @@ class Tree(productmd.common.MetadataBase):
         self.arch = parser.get(section, "arch")
         self.platforms = set([i for i in parser.get(section, "platforms").split(",") if i])
         if section == self._section:
-            self.build_timestamp = int(parser.getfloat(self._section, "build_timestamp"))
+            # keep the number as it is written, a float timestamp must survive a write/read cycle
+            value = parser.get(self._section, "build_timestamp")
+            try:
+                self.build_timestamp = int(value)
+            except ValueError:
+                self.build_timestamp = float(value)
+                # nan and infinity are refused
+                int(self.build_timestamp)
         else:
             self.build_timestamp = -1
 
